@@ -102,7 +102,7 @@ def obligations(ctx):
     for n in range(2, nmax + 1):
         obls.append(Obl("C18.collapse_eq_spec.n%02d" % n, "C18", B, entry="h_collapse", defines={"COLLAPSE_INC": ext, "N": str(n)},
                         mode="bounded", bound="every absolute path of exactly %d bytes over {'/','.','a','b'} without empty components" % n,
-                        cbmc=["--unwind", str(n + 3), "--unwinding-assertions"], timeout=2400, mem_gb=12, termination=True,
+                        cbmc=["--unwind", str(n + 3), "--unwinding-assertions"], timeout=(2400 if quick else 7200), mem_gb=12, termination=True,
                         case={"n": n}))
     # empty components ('//' and trailing '/') as ordinary components: smaller bound, outside the stated input domain but cheap to include
     emax = 8 if quick else 11
@@ -110,14 +110,14 @@ def obligations(ctx):
         obls.append(Obl("C18.collapse_eq_spec.empty_ok.n%02d" % n, "C18", B, entry="h_collapse",
                         defines={"COLLAPSE_INC": ext, "N": str(n), "ALLOW_EMPTY": None}, mode="bounded",
                         bound="every absolute path of exactly %d bytes over {'/','.','a','b'}, empty components allowed (ordinary)" % n,
-                        cbmc=["--unwind", str(n + 3), "--unwinding-assertions"], timeout=2400, mem_gb=12, termination=True,
+                        cbmc=["--unwind", str(n + 3), "--unwinding-assertions"], timeout=(2400 if quick else 7200), mem_gb=12, termination=True,
                         case={"n": n, "empty_components": True}))
     # the property's own quantifier: 1..8 components, '..' at every position (2-byte components, '/' positions fixed)
     kmax = 5 if quick else 8
     for k in range(1, kmax + 1):
         obls.append(Obl("C18.collapse_eq_spec.components%d" % k, "C18", B, entry="h_collapse", defines={"COLLAPSE_INC": ext, "KCOMP": str(k)},
                         mode="bounded", bound="every path of exactly %d two-byte components over {'.','a','b'} ('..' or ordinary at every position)" % k,
-                        cbmc=["--unwind", str(3 * k + 3), "--unwinding-assertions"], timeout=2400, mem_gb=16, termination=True,
+                        cbmc=["--unwind", str(3 * k + 3), "--unwinding-assertions"], timeout=(2400 if quick else 7200), mem_gb=16, termination=True,
                         case={"components": k}))
     obls.append(Obl("C18.collapse_eq_spec.canary", "C18", B, entry="h_collapse", defines={"COLLAPSE_INC": ext, "N": "6"},
                     mode="bounded", bound="n=6", cbmc=["--unwind", "9", "--unwinding-assertions"], canary=True))
